@@ -14,7 +14,7 @@ pub fn prop() -> Prop {
     Prop {
         id: "C07",
         level: "model_checking",
-        rule: "(a) the full table of < <= > >= = != over an 89-text universe (with -0, -0.0 next to 0, 0.0) of all types (equal-by-value spellings, numbers |n|<2^53 or non-integral) through the real functions, then totality, antisymmetry w.r.t. =, transitivity over all triples, congruence of =, agreement with the documented order; (b) --sort-by on all streams of <=5 (thorough <=7) rows {k,v,id} over the keys {\"b\",\"a\",2,null,absent} x 17 key/direction configurations (1..3 keys; omitted/ASC/DESC/asc/Desc; `=` and blank separators), all streams of <=4 (thorough <=5) rows over 16 keys of all types (0 and -0 among them) in both directions, and long streams with >11 distinct keys and >8 rows per key; (c) sort, sort_unique, sort_by, sort_by_keys, sort_by_values, sort_by_values_by on all lists/objects of <=5 (thorough <=6) elements over an 8-value universe, and on lists/objects of 20..100 elements with distinguishable ties; non-trivial = the input holds a tie between distinguishable rows, an absent key or two types; distinct by construction",
+        rule: "(a) the full table of < <= > >= = != over a 93-text universe (with -0, -0.0 next to 0, 0.0, and objects that differ only in member order, for which only the order axioms are required) of all types (equal-by-value spellings, numbers |n|<2^53 or non-integral) through the real functions, then totality, antisymmetry w.r.t. =, transitivity over all triples, congruence of =, agreement with the documented order; (b) --sort-by on all streams of <=5 (thorough <=7) rows {k,v,id} over the keys {\"b\",\"a\",2,null,absent} x 17 key/direction configurations (1..3 keys; omitted/ASC/DESC/asc/Desc; `=` and blank separators), all streams of <=4 (thorough <=5) rows over 16 keys of all types (0 and -0 among them) in both directions, and long streams with >11 distinct keys and >8 rows per key; (c) sort, sort_unique, sort_by, sort_by_keys, sort_by_values, sort_by_values_by on all lists/objects of <=5 (thorough <=6) elements over an 8-value universe, and on lists/objects of 20..100 elements with distinguishable ties; non-trivial = the input holds a tie between distinguishable rows, an absent key or two types; distinct by construction",
         explanation: "rows carry ids, so permutation, stability and multi-key order are observable; the output is compared with the reference pipeline (stable lexicographic insertion sort under the documented order) and, independently, checked to be a permutation of the sortable rows in which tied neighbours keep arrival order",
         assumptions: COMMON_ASSUMPTIONS.to_vec(),
         guards: vec!["tie-between-distinguishable-rows", "absent-key-dropped", "mixed-types", "three-keys", "desc", "more-than-11-distinct-keys", "more-than-8-rows-per-key", "order-table-complete", "function-sorts-with-ties"],
@@ -25,8 +25,8 @@ pub fn prop() -> Prop {
     }
 }
 
-const W: [&str; 89] = [
-    "-0", "-0.0", "[-0]", "null", "false", "true", "\"\"", "\"a\"", "\"\\u0061\"", "\"A\"", "\"ab\"", "\"b\"", "\"é\"", "\"z\"", "\"😃\"", "\"\\uffff\"", "\"1\"", "\"10\"", "\"9\"", "0", "0.0", "-1", "-1.0",
+const W: [&str; 93] = [
+    "{\"b\":2,\"a\":1}", "{\"a\":5,\"b\":0}", "[{\"b\":2,\"a\":1}]", "{\"b\":0,\"a\":5}", "-0", "-0.0", "[-0]", "null", "false", "true", "\"\"", "\"a\"", "\"\\u0061\"", "\"A\"", "\"ab\"", "\"b\"", "\"é\"", "\"z\"", "\"😃\"", "\"\\uffff\"", "\"1\"", "\"10\"", "\"9\"", "0", "0.0", "-1", "-1.0",
     "1", "1.0", "1e0", "10e-1", "1.5", "15e-1", "2", "-0.5", "100", "1e2", "9007199254740991", "-9007199254740991", "1e300", "-1e300", "5e-324", "0.1", "1e-1", "3", "2.5", "10",
     "9", "[]", "[1]", "[1.0]", "[1,2]", "[1,2,3]", "[2]", "[[]]", "[[1]]", "[null]", "[\"a\"]", "[1,\"a\"]", "[true]", "[{}]", "[1.5]", "[[1],[2]]", "[[1],[1]]", "[\"a\",\"b\"]", "[\"b\"]", "[false]",
     "[null,null]", "[10]", "[9]", "[1,[]]", "[1,null]", "{}", "{\"a\":1}", "{\"a\":1.0}", "{\"a\":2}", "{\"b\":1}", "{\"a\":1,\"b\":2}", "{\"a\":[1]}", "{\"a\":null}", "{\"a\":{}}", "{\"\":0}", "[{\"a\":1}]", "[{\"a\":1.0}]", "[{\"a\":2}]", "1.0e0", "0.5",
@@ -43,6 +43,10 @@ fn order_table(ctx: &mut Ctx) -> Option<Table> {
     let vals: Vec<V> = W.iter().map(|t| json::parse_str(t)).collect();
     let mut lt = vec![vec![false; n]; n];
     let mut eq = vec![vec![false; n]; n];
+    let mut lem = vec![vec![false; n]; n];
+    // two values that are equal as JSON values but list their members in a different order: `=` calls them equal,
+    // the order is free to separate them (the documentation fixes nothing among objects) - but it must stay an order
+    let permuted = |a: &V, b: &V| eval::veq(a, b) && a != b;
     let names = ["<", "<=", ">", ">=", "=", "!="];
     let args: Vec<String> = names.iter().enumerate().map(|(i, f)| format!("--select=({f} #0 #1)=f{i}")).collect();
     for i in 0..n {
@@ -68,7 +72,8 @@ fn order_table(ctx: &mut Ctx) -> Option<Table> {
             }
             let (l, le, g, ge, e, ne) = (f[0], f[1], f[2], f[3], f[4], f[5]);
             // the six functions agree with one another: exactly one of <, =, > and the derived ones follow
-            let consistent = (l as u8 + e as u8 + g as u8 == 1) && le == (l || e) && ge == (g || e) && ne == !e;
+            let perm = permuted(&vals[i], &vals[j]);
+            let consistent = if perm { l != ge && g != le && ne == !e } else { (l as u8 + e as u8 + g as u8 == 1) && le == (l || e) && ge == (g || e) && ne == !e };
             if !consistent {
                 ctx.violation(
                     "comparison-functions-disagree-with-one-another",
@@ -79,7 +84,7 @@ fn order_table(ctx: &mut Ctx) -> Option<Table> {
                 );
             }
             // agreement with the documented order where it fixes the answer
-            if let Some(o) = eval::vcmp(&vals[i], &vals[j]) {
+            if let Some(o) = eval::vcmp(&vals[i], &vals[j]).filter(|_| !perm && !contains_permuted_pair(&vals[i], &vals[j])) {
                 if l != (o == Ordering::Less) || g != (o == Ordering::Greater) {
                     ctx.violation(
                         "comparison-differs-from-the-documented-order",
@@ -94,15 +99,19 @@ fn order_table(ctx: &mut Ctx) -> Option<Table> {
                 ctx.violation("eq-differs-from-reference-equality", &sig, &[case.clone()], format!("{}", !e), format!("(= {} {}) is {e}", W[i], W[j]));
             }
             lt[i][j] = l;
-            eq[i][j] = e;
+            eq[i][j] = e && !perm && !contains_permuted_pair(&vals[i], &vals[j]);
+            lem[i][j] = le;
             ctx.transition(&(vals[i].type_rank(), vals[j].type_rank(), l, e));
         }
     }
     // axioms over all pairs and triples
-    let le = |a: usize, b: usize| lt[a][b] || eq[a][b];
+    let le = |a: usize, b: usize| lem[a][b];
     for a in 0..n {
         for b in 0..n {
-            if lt[a][b] == lt[b][a] && !(eq[a][b]) || (eq[a][b] != eq[b][a]) || (lt[a][b] && eq[a][b]) {
+            if !le(a, b) && !le(b, a) {
+                ctx.violation("order-not-total-or-not-antisymmetric", &format!("{} vs {}", vals[a].type_name(), vals[b].type_name()), &[], "a<=b or b<=a".into(), format!("{} / {}", W[a], W[b]));
+            }
+            if lt[a][b] == lt[b][a] && !(eq[a][b]) && !(le(a, b) && le(b, a)) || (eq[a][b] != eq[b][a]) || (lt[a][b] && eq[a][b]) {
                 if !(lt[a][b] != lt[b][a] || eq[a][b]) || eq[a][b] != eq[b][a] {
                     ctx.violation("order-not-total-or-not-antisymmetric", &format!("{} vs {}", vals[a].type_name(), vals[b].type_name()), &[], "exactly one of a<b, a=b, b<a".into(), format!("{} / {}", W[a], W[b]));
                 }
@@ -119,6 +128,15 @@ fn order_table(ctx: &mut Ctx) -> Option<Table> {
     }
     ctx.guard("order-table-complete");
     Some(Table { lt, eq })
+}
+
+/// do the two values hold, at the same position, a pair of objects that differ only in member order?
+fn contains_permuted_pair(a: &V, b: &V) -> bool {
+    match (a, b) {
+        (V::Arr(x), V::Arr(y)) => x.len() == y.len() && eval::veq(a, b) && a != b || x.iter().zip(y.iter()).any(|(p, q)| contains_permuted_pair(p, q)),
+        (V::Obj(_), V::Obj(_)) => eval::veq(a, b) && a != b,
+        _ => false,
+    }
 }
 
 struct SortCfg {
